@@ -10,6 +10,7 @@ import (
 	"errors"
 	"fmt"
 	"io"
+	"os"
 	"strings"
 	"sync"
 	"time"
@@ -149,6 +150,9 @@ func (c *Ctl) TxIdle() bool { return len(c.txToken) == 1 }
 func (c *Ctl) hit(ctx context.Context, kind, q string, args []driver.NamedValue) (*Stmt, error) {
 	c.mu.Lock()
 	defer c.mu.Unlock()
+	if w := os.Getenv("VERIF_SQLGREP"); w != "" && strings.Contains(q, w) { // debugging aid
+		fmt.Fprintln(os.Stderr, "SQL:", q)
+	}
 	var st *Stmt
 	if c.logging {
 		st = &Stmt{Kind: kind, SQL: q, Label: labelOf(ctx)}
